@@ -692,23 +692,34 @@ class _CurveW(StandIn):
     CROSSINGS = [(0, 5, Fr(3, 4), Fr(0)), (0, 7, Fr(1, 4), Fr(1, 2)), (2, 1, Fr(1, 2), Fr(0)), (0, 2, Fr(1, 2), Fr(1, 3)),
                  (0, 3, Fr(1, 4), Fr(2, 3)),
                  # crossings at the very ends of a segment (a vertex of the curve lying on the boundary)
-                 (1, 4, Fr(0), Fr(1, 5)), (1, 6, Fr(1, 2), Fr(1, 7)), (2, 8, Fr(1), Fr(1, 9))]
+                 (1, 4, Fr(0), Fr(1, 5)), (1, 6, Fr(1, 2), Fr(1, 7)), (2, 8, Fr(1), Fr(1, 9)),
+                 # segment 3 runs from one vertex of the boundary to another one (vertex on vertex at both ends)
+                 (3, 9, Fr(0), Fr(1)), (3, 10, Fr(1), Fr(0))]
+    NSEG = 4
 
     def __init__(self):
-        self.segments = tuple(_SegW(i) for i in range(3))
-        self.corners = tuple(("pt", i, Fr(0)) for i in range(3))
+        self.segments = tuple(_SegW(i) for i in range(self.NSEG))
+        self.corners = tuple(("pt", i, Fr(0)) for i in range(self.NSEG))
         # segment 1 is curved: its interior control point is not a point of the curve
-        self.vertices = (self.corners[0], self.corners[1], ("ctrl", 1, Fr(-1)), self.corners[2])
+        self.vertices = (self.corners[0], self.corners[1], ("ctrl", 1, Fr(-1)), self.corners[2], self.corners[3])
 
     def points(self, subnpts=None):
         k = int(subnpts or 0)
-        return tuple(("pt", i, Fr(j, k + 1)) for i in range(3) for j in range(k + 1))
+        return tuple(("pt", i, Fr(j, k + 1)) for i in range(self.NSEG) for j in range(k + 1))
+
+    def intersection(self, other, equal_beziers=True, end_points=True):
+        """as JordanCurve.intersection: without `end_points` the records whose two parameters both sit at segment ends
+        (a vertex of one curve on a vertex of the other) are left out"""
+        recs = list(self.CROSSINGS)
+        if not end_points:
+            recs = [(a, b, u, v) for a, b, u, v in recs if 0 < u < 1 or 0 < v < 1]
+        return tuple(sorted(recs))
 
     def __and__(self, other):
-        return list(self.CROSSINGS)
+        return list(self.intersection(other, equal_beziers=False, end_points=False))
 
     def __rand__(self, other):
-        return [(b, a, v, u) for a, b, u, v in self.CROSSINGS]
+        return [(b, a, v, u) for a, b, u, v in self.__and__(other)]
 
 
 class _SelfW(StandIn):
@@ -726,12 +737,16 @@ class _SelfW(StandIn):
         return self.contains_point(point)
 
 
+VV_FACT = ("a piece of the curve that runs from one vertex of the boundary to another is never sampled (crossings with both "
+           "curves at a vertex are filtered out before the in-between points are chosen)")
+
+
 def contains_jordan_world(ctx, out, parts=("vertices", "mids", "flag")):
     """SimpleShape._contains_jordan on an abstract curve (W): vertices (0..2), crossings of segment 0 at 1/4, 1/2, 3/4 and
     of segment 2 at 1/2.  Decided on the outcome of the run: which points were tested with which flag, and the result"""
     from verifkit.finite import Raised
     fn = ctx.fn("shape.SimpleShape._contains_jordan")
-    gaps = [(0, Fr(1, 4), Fr(1, 2)), (0, Fr(1, 2), Fr(3, 4)), (1, Fr(0), Fr(1, 2)), (2, Fr(1, 2), Fr(1))]
+    gaps = [(0, Fr(1, 4), Fr(1, 2)), (0, Fr(1, 2), Fr(3, 4)), (1, Fr(0), Fr(1, 2)), (2, Fr(1, 2), Fr(1)), (3, Fr(0), Fr(1))]
     scen = [("everything inside", lambda p: False, True),
             ("vertex 1 outside", lambda p: p == ("pt", 1, Fr(0)), False),
             ("an off-curve control point of a curved segment lies outside, the curve itself inside",
@@ -743,7 +758,9 @@ def contains_jordan_world(ctx, out, parts=("vertices", "mids", "flag")):
             ("curve leaves between the crossing at its vertex (parameter 0) and 1/2 of segment 1",
              lambda p: p[1] == 1 and Fr(0) < p[2] < Fr(1, 2), False),
             ("curve leaves between the crossings at 1/2 and its end vertex (parameter 1) of segment 2",
-             lambda p: p[1] == 2 and Fr(1, 2) < p[2] < Fr(1), False)]
+             lambda p: p[1] == 2 and Fr(1, 2) < p[2] < Fr(1), False),
+            ("curve leaves between two of its vertices that are vertices of the boundary as well (segment 3)",
+             lambda p: p[1] == 3 and Fr(0) < p[2] < Fr(1), False)]
     bad = set()
     for flag in (True, False):
         for label, outside, want in scen:
@@ -763,10 +780,15 @@ def contains_jordan_world(ctx, out, parts=("vertices", "mids", "flag")):
             if label == "everything inside":
                 if not all(v in pts for v in J.corners):
                     bad.add(("vertices", "the vertices of the curve are not all tested"))
-                if not all(any(p[1] == i and a < p[2] < b for p in pts) for i, a, b in gaps):
+                missing = [(i, a, b) for i, a, b in gaps if not any(p[1] == i and a < p[2] < b for p in pts)]
+                if missing == [(3, Fr(0), Fr(1))]:
+                    bad.add(("mids", VV_FACT))
+                elif missing:
                     bad.add(("mids", "no test of curve points between consecutive crossings"))
             if bool(got) != want:
-                if "between" in label:
+                if "vertices of the boundary" in label:
+                    bad.add(("mids", VV_FACT))
+                elif "between" in label:
                     bad.add(("mids", "no test of curve points between consecutive crossings"))
                 elif "off-curve" in label:
                     bad.add(("vertices", "a control point that does not lie on the curve decides the containment of the curve"))
